@@ -129,8 +129,8 @@ def run_check(fam, tier, seed):
         broken.append(f'correspondence {pid}: implementation and model disagree on {len(ties)} case(s)')
     searched = 0
     if broken and not viols:
-        # search for a concrete failing input: 10x the quick budget, implementation vs specification
-        extra = [fam.gen(rng, i, 'search') for i in range(fam.budget('quick') * 10)]
+        # search for a concrete failing input: 10x the quick budget (fam.search_factor), implementation vs specification
+        extra = [fam.gen(rng, i, 'search') for i in range(fam.budget('quick') * getattr(fam, 'search_factor', 10))]
         searched = len(extra)
         recs2, _, _ = evaluate(fam, extra)
         viols = [r for r in recs2 if r['verdict'] == 'violation']
